@@ -14,6 +14,35 @@ CLAIMS = {
         'write-by-write differential execution against EventFilter::writeAllowed, and the property itself is evaluated on the implementation.',
    note=NOTE_COMMON + 'std::set modelled as duplicate-free list; predicate pure; well-formedness as stated in Props/Properties_C16.v.',
    design='4/C16', technique='Coq proof by induction over entry lists + refinement of SegmentedMap to a finite map; differential correspondence'),
+ 'C18': dict(
+   text='Theorems C18_sorted_is_stable_sort_of_unsorted and C18_stable_sort_spec (Coq, closed): for every renderer and every input byte string '
+        '(incl. logs ending in an invalid or truncated entry) sorted printing prints stable_sort of exactly the lines unsorted printing completes, same end '
+        'status; stable_sort is sorted by clock, a permutation, and order-preserving among equal clocks. Instantiated with facts read off printers.cpp '
+        '(std::stable_sort, strict < comparator, buffer flushed before an exception propagates); model tied by differential runs of printEvents / '
+        'printSortedEvents and by the property evaluated on the implementation (also under an address-space limit in the thorough tier).',
+   note=NOTE_COMMON + 'std::stable_sort modelled as stable insertion sort; partial text of an event whose rendering throws is outside "lines".',
+   design='4/C18', technique='Coq proof (insertion-sort stability, Permutation, Sorted) + differential correspondence'),
+ 'C14': dict(
+   text='Theorems C14_segmap_is_map (SegmentedMap refines a finite map for every key sequence), C14_latest_definition_wins (the reader refines a reader over a '
+        'plain function id->source with override), C14_invalid_entry_isolated and C14_invalid_entries_absent (an entry reported as an error leaves the state '
+        'unchanged; all other entries are interpreted as if it were absent) — Coq, closed, unbounded. Tied by differential runs of SegmentedMap and of the '
+        'nextEvent loop, plus the property evaluated on the implementation against a dict-based reference.',
+   note=NOTE_COMMON + 'zero-length entry = end marker (stated as an Example, pinned by the unit tests); vector growth not modelled.',
+   design='4/C14', technique='Coq refinement proof (SegmentedMap -> finite map; EventStream -> abstract reader) + differential correspondence'),
+ 'C15': dict(
+   text='Theorem C15_decoration_invisible (Coq, closed): for every renderer that ignores bytes behind the decoded arguments and every log whose read completes, '
+        'inserting unknown special entries anywhere and appending arbitrary bytes to any entry leaves text, sources and final state unchanged. Decoders are '
+        'instantiated with the wire orders and tags read off Entries.hpp. Tied by differential runs (bread path, sorted path, TextOutputStream) on original '
+        'and decorated logs and by text equality on the implementation.',
+   note=NOTE_COMMON + 'the renderer hypothesis (argument suffix ignored) is a stated premise until the message renderer is in the model.',
+   design='4/C15', technique='Coq proof by induction over a decoration relation + suffix-stability lemmas of the decoders; differential correspondence'),
+ 'C12': dict(
+   text='Theorems C12_scan_cut, C12_status_at_cut, C12_prefix_prints_whole_entries, C12_resume_equals_uninterrupted (Coq, closed): for every well-formed log and '
+        'every cut offset exactly the entries wholly inside the prefix are read, the status is ok iff the cut is a boundary, the remaining input is the incomplete '
+        'entry, and any piecewise delivery with retry reads the same lines and state as an uninterrupted read. Tied by runs at EVERY cut offset of generated '
+        'logs and by resume scripts on std::stringstream (text, status, tellg).',
+   note=NOTE_COMMON + 'std::istream (read/gcount/clear/seekg/tellg) is modelled as bytes + remaining suffix and tied by correspondence only.',
+   design='4/C12', technique='Coq proof over an explicit prefix/cut function + resume invariant; exhaustive-cut differential correspondence'),
 }
 REASON_NOT_BUILT = 'not built yet in this round: no theorem/correspondence for it is registered; not claimed at a lower level by another technique'
 m = {'version': 1, 'setup_cmd': './setup.sh',
